@@ -139,6 +139,12 @@ where
                     break;
                 }
             }
+
+            if upgraded {
+                // what was read ahead from the upgraded service belongs to the client
+                client_writer.write_all(service_bufreader.buffer())?;
+                client_writer.flush()?;
+            }
         } else if let Some(ref mut service_stream) = last_service_stream {
             let mut service_writer = service_stream.try_clone()?;
             // what was read ahead from the client belongs to the upgraded service
